@@ -24,6 +24,15 @@ FN_DEF = re.compile(r"^    (?:\S.*? )?(setup\w*|update\w+|eval\w+|on\w+)\((.*)\)
 FN_BLOCK = re.compile(r"^    (?:\S[^\n]*? )?(setup\w*|update\w+|eval\w+|on\w+)\(([^\n]*)\)\n    \{\n(.*?)^    \}\n", re.M | re.S)
 
 
+CXX_KEYWORDS = set("class union int new delete default switch template export register this operator namespace".split())
+IDENT = type("I", (), {"match": staticmethod(lambda n: re.fullmatch(r"[^\W\d]\w*", n) is not None and n not in CXX_KEYWORDS)})
+
+
+def ascii_lower(s):
+    """the file-name rule lower-cases ASCII letters only (qtname.rs make_ascii_lowercase)"""
+    return "".join(c.lower() if c.isascii() else c for c in s)
+
+
 def tokens(header, expected_ui_include):
     defs = [m.group(1) for m in FN_DEF.finditer(header)]
     calls = re.findall(r"this->(\w+)\(", header)
@@ -56,7 +65,7 @@ def tokens(header, expected_ui_include):
 
 def compile_header(chk, name, type_name, header, ui, lowercase=True):
     ui_h, _ = cxx.ui_header(type_name, ui)
-    lower = type_name.lower() if lowercase else type_name      # uic names its header after the .ui file as spelled
+    lower = ascii_lower(type_name) if lowercase else type_name      # uic names its header after the .ui file as spelled
     files = {"main.cpp": '#include "mockqt_classes.h"\n#include "uisupport_%s.h"\nint main() { return 0; }\n' % lower,
              "ui_%s.h" % lower: ui_h, "uisupport_%s.h" % lower: header}
     rc1, err1 = cxx.syntax_check(chk.work, name, files)
@@ -307,6 +316,9 @@ def run(chk):
     docs.append(("keepcase:MainPanel", wide_doc(3), [VERIF_METATYPES], True))
     docs.append(("keepcase:Ui_Form", collide_doc(), [VERIF_METATYPES], True))
     docs.append(("keepcase:lower", wide_doc(2), [VERIF_METATYPES], True))
+    # type names (file stems) that are no C++ identifier are written out verbatim as the class name (known finding F22)
+    for tn in ("settings-page", "2ndPage", "My Type", "a.b", "class", "union", "\u00dcbersicht", "Good_1", "_x"):
+        docs.append(("oddname:" + tn, wide_doc(1), [VERIF_METATYPES], True))
     docs.append(("ctxquote", P.HEAD + "  TSource { id: t0; text: a.flag ? qsTr(\"x\") : a.text }\n}\n", [VERIF_METATYPES], True))
     for n, g in enumerate(GADGET_DOCS):
         docs.append(("gadget%d" % n, g, [QT5_METATYPES, VERIF_T_METATYPES], False))
@@ -320,8 +332,8 @@ def run(chk):
         if name == "ctxquote":
             tn = "Do_c"
         keep = name.startswith("keepcase:")
-        if keep:
-            tn = name.split(":")[1]
+        if keep or name.startswith("oddname:"):
+            tn = name.split(":", 1)[1]
         res = translate([{"id": name, "src": qml, "type_name": tn, "modes": ["generate"], "lowercase": not keep}], metatypes=mts, procs=1)
         run_ = res[name]["generate"]
         if run_.get("panic") or not P.is_accepted(run_):
@@ -333,7 +345,7 @@ def run(chk):
     def judge(t):
         name, qml, tn, run_, comp = t
         keep = name.startswith("keepcase:")
-        tok = tokens(run_["header"], "ui_%s.h" % (tn if keep else tn.lower()))
+        tok = tokens(run_["header"], "ui_%s.h" % (tn if keep else ascii_lower(tn)))
         st, st2, err = ("skip", "skip", "")
         if comp:
             st, st2, err = compile_header(chk, name, tn, run_["header"], run_["ui"], lowercase=not keep)
@@ -368,9 +380,12 @@ def run(chk):
             errs = re.findall(r"error: ([^\n]*)", err)
             if errs and all(("invalid conversion from" in e and "int" in e and "TSource::Mode" in e) or (re.search(r"no match for .operator[|&~^].", e) and "TSource::Level" in e) for e in errs):
                 finding = "F17"
+        if inv == "Compiles" and name.startswith("oddname:") and not IDENT.match(name.split(":", 1)[1]):
+            finding = "F22"
         if finding and chk.is_known(finding):
             chk.known_finding(finding, {"F6": "Math.min/max(<uint expression>, <integer literal>) is printed as std::min(a0, 3): template deduction fails",
                                         "F7": "% on double operands is printed verbatim (a0 % 2e0): invalid C++",
+                                        "F22": "a type name (file stem) that is no C++ identifier -- settings-page, 2ndPage, a.b, class -- is written out verbatim as the class name: the header cannot compile",
                                         "F17": "a bitwise operator on operands of an enum type without a flags type (plain or scoped enum) is accepted and printed verbatim: invalid C++"}[finding])
             continue
         chk.violation("%s fails for header of document %s%s" % (inv, name, (": " + err[:400]) if inv == "Compiles" else ""),
